@@ -1371,3 +1371,265 @@ pub fn c20_block_cid(nd: &mut Nondet) {
         (None, Some(_)) => check("c20.valid-block-is-delivered", false),
     }
 }
+
+// ------------------------------------------------------------------------------------------ C14 routing table
+use litep2p::protocol::libp2p::kademlia::bucket::KBucketEntry;
+use litep2p::protocol::libp2p::kademlia::routing_table::RoutingTable;
+
+fn kad_address(v: u8, peer: PeerId) -> Multiaddr {
+    Multiaddr::empty().with(Protocol::Ip4(Ipv4Addr::new(10, 1, 0, v))).with(Protocol::Tcp(30333)).with(Protocol::P2p(peer.into()))
+}
+
+#[derive(Clone)]
+struct RefPeer { v: u8, has_addr: bool, connected: bool }
+
+/// brute-force reference of `closest`: stored peers with addresses, by increasing distance to the target
+fn reference_closest(model: &Vec<RefPeer>, nd: &mut Nondet, target: &Key<PeerId>, limit: usize) -> Vec<PeerId> {
+    let mut with_addr: Vec<PeerId> = model.iter().filter(|p| p.has_addr).map(|p| nd.peer_id_fixed(p.v)).collect();
+    with_addr.sort_by_key(|p| target.distance(&Key::from(*p)));
+    with_addr.truncate(limit);
+    with_addr
+}
+
+/// C14: histories of routing-table updates over peers in several buckets (keys are the real SHA-256 of the ids),
+/// then `closest` against a brute-force reference.
+pub fn c14_table_ops(nd: &mut Nondet) {
+    // relative to local id 0: ids 1, 2 -> bucket 255; 3 -> bucket 254; 9 -> bucket 250
+    const POOL: [u8; 4] = [1, 2, 3, 9];
+    let local = nd.peer_id_fixed(0);
+    let mut table = RoutingTable::new(Key::from(local));
+    let mut model: Vec<RefPeer> = Vec::new();
+    let steps = param("steps", 2);
+    for _ in 0..steps {
+        let v = POOL[nd.choose("peer", POOL.len() as u64) as usize];
+        let peer = nd.peer_id_fixed(v);
+        let pos = model.iter().position(|p| p.v == v);
+        match nd.choose("op", 4) {
+            0 => {
+                let with_addr = nd.bool("with_address");
+                let connected = nd.bool("connected");
+                let addresses = if with_addr { vec![kad_address(v, peer)] } else { vec![] };
+                table.add_known_peer(peer, addresses, if connected { ConnectionType::Connected } else { ConnectionType::NotConnected });
+                if with_addr {
+                    match pos { Some(i) => { model[i].has_addr = true; model[i].connected = connected; } None => model.push(RefPeer { v, has_addr: true, connected }) }
+                }
+                cover("c14.add");
+            }
+            1 => {
+                let dialer = nd.bool("dialer");
+                let endpoint = if dialer { Endpoint::Dialer { address: kad_address(v, peer), connection_id: ConnectionId::from(1usize) } }
+                               else { Endpoint::Listener { address: kad_address(v, peer), connection_id: ConnectionId::from(1usize) } };
+                table.on_connection_established(Key::from(peer), endpoint);
+                if let Some(i) = pos { model[i].connected = true; if dialer { model[i].has_addr = true; } }
+                cover("c14.established");
+            }
+            2 => {
+                table.on_dial_failure(Key::from(peer), &[kad_address(v, peer)]);
+                if let Some(i) = pos { model[i].has_addr = true; }
+                cover("c14.dial-failure");
+            }
+            _ => {
+                // the local node is never stored
+                table.add_known_peer(local, vec![kad_address(0, local)], ConnectionType::Connected);
+                check("c14.local-node-is-never-stored", matches!(table.entry(Key::from(local)), KBucketEntry::LocalNode));
+                cover("c14.add-local");
+            }
+        }
+        // entry view agrees with the reference
+        for q in POOL.iter() {
+            let known = model.iter().find(|p| p.v == *q);
+            match table.entry(Key::from(nd.peer_id_fixed(*q))) {
+                KBucketEntry::Occupied(e) => {
+                    match known {
+                        Some(m) => check("c14.entry-connection-state", e.is_connected_verif() == m.connected),
+                        None => check("c14.unknown-peer-is-not-occupied", false),
+                    }
+                }
+                _ => check("c14.known-peer-is-occupied", known.is_none()),
+            }
+        }
+    }
+    // closest lookups: target = a stored peer's key, a foreign key, or the local key
+    let target_v = match nd.choose("target", 4) { 0 => 1u8, 1 => 9, 2 => 100, _ => 0 };
+    let target = Key::from(nd.peer_id_fixed(target_v));
+    let all = table.closest(&target, 8);
+    let expect = reference_closest(&model, nd, &target, 8);
+    let got: Vec<PeerId> = all.iter().map(|p| p.peer_id_verif()).collect();
+    check("c14.closest-returns-exactly-the-stored-peers-with-addresses-by-distance", got == expect);
+    let limit = 1 + nd.choose("limit", 2) as usize;
+    let some: Vec<PeerId> = table.closest(&target, limit).iter().map(|p| p.peer_id_verif()).collect();
+    let expect_some = reference_closest(&model, nd, &target, limit);
+    check("c14.closest-k-is-the-k-closest", some == expect_some);
+    cover("c14.closest");
+}
+
+/// C14: a full bucket (20 peers whose real keys share bucket 255): re-adding, connecting and overflowing.
+pub fn c14_bucket_full(nd: &mut Nondet) {
+    // ids whose SHA-256 key lies in bucket 255 relative to local id 0
+    const B255: [u8; 22] = [1, 2, 4, 5, 6, 10, 14, 15, 16, 18, 21, 22, 25, 26, 28, 29, 30, 31, 32, 34, 36, 38];
+    let local = nd.peer_id_fixed(0);
+    let mut table = RoutingTable::new(Key::from(local));
+    let mut model: Vec<RefPeer> = Vec::new();
+    // which of the 20 entries are not connected (and therefore replaceable): up to two of them, anywhere
+    let loose_a = match nd.choose("loose_a", 4) { 0 => None, 1 => Some(0usize), 2 => Some(7), _ => Some(19) };
+    let loose_b = match nd.choose("loose_b", 2) { 0 => None, _ => Some(12usize) };
+    for i in 0..20 {
+        let v = B255[i];
+        let p = nd.peer_id_fixed(v);
+        let connected = Some(i) != loose_a && Some(i) != loose_b;
+        table.add_known_peer(p, vec![kad_address(v, p)], if connected { ConnectionType::Connected } else { ConnectionType::NotConnected });
+        model.push(RefPeer { v, has_addr: true, connected });
+    }
+    let steps = param("steps", 2);
+    for _ in 0..steps {
+        match nd.choose("op", 4) {
+            0 => {
+                // a peer that is already stored is offered again (e.g. learned from a FIND_NODE reply)
+                let i = match nd.choose("existing", 3) { 0 => 3usize, 1 => 12, _ => 15 };
+                let connected = nd.bool("connected");
+                let v = model[i].v;
+                if model.iter().any(|p| p.v == B255[i]) {
+                    let j = model.iter().position(|p| p.v == B255[i]).unwrap();
+                    let p = nd.peer_id_fixed(B255[i]);
+                    table.add_known_peer(p, vec![kad_address(B255[i], p)], if connected { ConnectionType::Connected } else { ConnectionType::NotConnected });
+                    model[j].connected = connected;
+                    cover("c14.full.readd");
+                }
+                let _ = v;
+            }
+            1 => {
+                // an inbound or outbound connection with a stored peer
+                let i = match nd.choose("who", 3) { 0 => 0usize, 1 => 7, _ => 12 };
+                if let Some(j) = model.iter().position(|p| p.v == B255[i]) {
+                    let p = nd.peer_id_fixed(B255[i]);
+                    let endpoint = if nd.bool("dialer") { Endpoint::Dialer { address: kad_address(B255[i], p), connection_id: ConnectionId::from(1usize) } }
+                                   else { Endpoint::Listener { address: kad_address(B255[i], p), connection_id: ConnectionId::from(1usize) } };
+                    table.on_connection_established(Key::from(p), endpoint);
+                    model[j].connected = true;
+                    cover("c14.full.connect");
+                }
+            }
+            _ => {
+                // a new peer for the full bucket: takes the place of the first non-connected entry, if any
+                let v = if model.iter().any(|p| p.v == 36) { 38u8 } else { 36u8 };
+                if !model.iter().any(|p| p.v == v) {
+                    let p = nd.peer_id_fixed(v);
+                    table.add_known_peer(p, vec![kad_address(v, p)], ConnectionType::NotConnected);
+                    match model.iter().position(|p| !p.connected) {
+                        Some(j) => { model[j] = RefPeer { v, has_addr: true, connected: false }; cover("c14.full.displace"); }
+                        None => cover("c14.full.noslot"),
+                    }
+                }
+            }
+        }
+        check("c14.bucket-never-exceeds-twenty", model.len() <= 20);
+    }
+    let target = Key::from(nd.peer_id_fixed(36));
+    let got: Vec<PeerId> = table.closest(&target, 30).iter().map(|p| p.peer_id_verif()).collect();
+    let expect = reference_closest(&model, nd, &target, 30);
+    check("c14.full-bucket-holds-exactly-the-reference-peers", got == expect);
+    check("c14.at-most-twenty-returned", got.len() <= 20);
+    for m in model.iter() {
+        if m.connected {
+            check("c14.connected-peer-is-never-displaced", matches!(table.entry(Key::from(nd.peer_id_fixed(m.v))), KBucketEntry::Occupied(e) if e.is_connected_verif()));
+        }
+    }
+}
+
+// ------------------------------------------------------------------------------------------ C17 providers
+use litep2p::protocol::libp2p::kademlia::ContentProvider;
+
+/// C17 (providers half): bounds on keys / providers per key / addresses per provider, freshness, distance order,
+/// closest-retained and update-in-place, against a reference model.
+pub fn c17_store_providers(nd: &mut Nondet) {
+    let max_keys = nd.choose("max_provider_keys", 3) as usize;
+    let max_per_key = 1 + nd.choose("max_providers_per_key", 2) as usize;
+    let max_addrs = nd.choose("max_provider_addresses", 3) as usize;
+    let ttl = Duration::from_secs(1000);
+    let config = MemoryStoreConfig {
+        max_records: 1, max_record_size_bytes: 8, max_provider_keys: max_keys, max_provider_addresses: max_addrs,
+        max_providers_per_key: max_per_key, provider_refresh_interval: Duration::from_secs(3600), provider_ttl: ttl,
+    };
+    let local = nd.peer_id_fixed(0);
+    let mut store = MemoryStore::with_config(local, config);
+    let provider_ids: [u8; 3] = [1, 2, 3];
+    let keys = [RecordKey::from(vec![0u8]), RecordKey::from(vec![1u8])];
+    // reference: per key the providers sorted by distance to the key: (peer index, addresses, expired)
+    let mut model: Vec<(usize, Vec<(usize, usize, bool)>)> = Vec::new();
+    let closer = |k: usize, a: usize, b: usize, nd: &mut Nondet| -> bool {
+        let key = Key::new(keys[k].clone());
+        Key::from(nd.peer_id_fixed(provider_ids[a])).distance(&key) < Key::from(nd.peer_id_fixed(provider_ids[b])).distance(&key)
+    };
+    let steps = param("steps", 3);
+    for _ in 0..steps {
+        let k = nd.choose("key", 2) as usize;
+        match nd.choose("op", 3) {
+            0 => {
+                let who = nd.choose("provider", 3) as usize;
+                let peer = nd.peer_id_fixed(provider_ids[who]);
+                // quick tier: none or more than any bound; thorough tier: 0..=3
+                let n = if param("all_address_counts", 0) == 1 { nd.choose("n_addresses", 4) as usize } else { 3 * nd.choose("n_addresses", 2) as usize };
+                let mut addresses = Vec::new();
+                for j in 0..n { addresses.push(kad_address(j as u8 + 1, peer)); }
+                let accepted = store.put_provider(keys[k].clone(), ContentProvider { peer, addresses });
+                let stored_addrs = std::cmp::min(n, max_addrs);
+                // reference semantics
+                let expect = match model.iter().position(|(kk, _)| *kk == k) {
+                    None => if model.len() < max_keys { model.push((k, vec![(who, stored_addrs, false)])); true } else { false },
+                    Some(pos) => {
+                        let list = &mut model[pos].1;
+                        if let Some(i) = list.iter().position(|(w, _, _)| *w == who) {
+                            list[i] = (who, stored_addrs, false);      // re-announcement updates in place
+                            true
+                        } else {
+                            let mut i = 0;
+                            while i < list.len() && closer(k, list[i].0, who, nd) { i += 1; }
+                            if i == max_per_key { false } else {
+                                if list.len() == max_per_key { list.pop(); }   // only the closest are retained
+                                list.insert(i, (who, stored_addrs, false));
+                                true
+                            }
+                        }
+                    }
+                };
+                check("c17p.put-accepted-as-the-reference-says", accepted == expect);
+                cover("c17p.put");
+            }
+            1 => {
+                let got: Vec<(PeerId, usize)> = store.get_providers(&keys[k]).into_iter().map(|p| (p.peer, p.addresses.len())).collect();
+                let expect: Vec<(PeerId, usize)> = match model.iter().position(|(kk, _)| *kk == k) {
+                    None => Vec::new(),
+                    Some(pos) => {
+                        model[pos].1.retain(|(_, _, expired)| !*expired);
+                        let out = model[pos].1.iter().map(|(w, a, _)| (nd.peer_id_fixed(provider_ids[*w]), *a)).collect();
+                        if model[pos].1.is_empty() { model.remove(pos); }
+                        out
+                    }
+                };
+                check("c17p.get-returns-fresh-providers-closest-first", got == expect);
+                for (_, a) in got.iter() { check("c17p.addresses-per-provider-bounded", *a <= max_addrs); }
+                check("c17p.providers-per-key-bounded", got.len() <= max_per_key);
+                cover("c17p.get");
+            }
+            _ => {
+                // time passes beyond the provider TTL for everything stored so far
+                store.age_verif(ttl + Duration::from_secs(1));
+                for (_, list) in model.iter_mut() { for p in list.iter_mut() { p.2 = true; } }
+                cover("c17p.expire");
+            }
+        }
+        // bounds on the stored state itself (not only on what `get` returns)
+        check("c17p.provider-keys-bounded", store.provider_keys_len_verif() <= max_keys);
+        check("c17p.provider-keys-match-reference", store.provider_keys_len_verif() == model.len());
+        for kk in 0..2 {
+            let stored = store.providers_of_verif(&keys[kk]);
+            check("c17p.stored-providers-per-key-bounded", stored.len() <= max_per_key);
+            for (_, a) in stored.iter() { check("c17p.stored-addresses-per-provider-bounded", *a <= max_addrs); }
+            let expect: Vec<(PeerId, usize)> = match model.iter().find(|(x, _)| *x == kk) {
+                None => Vec::new(),
+                Some((_, list)) => list.iter().map(|(w, a, _)| (nd.peer_id_fixed(provider_ids[*w]), *a)).collect(),
+            };
+            check("c17p.stored-providers-sorted-by-distance-as-reference", stored == expect);
+        }
+    }
+}
